@@ -11,6 +11,15 @@ Tie between model and source
   `model_spec.column_names` (oracle: pairwise equality of the implementation's own outputs); the plumbing model
   (`Model/EntryPoints.lean`) is tied by wrapping `FormulaMaterializer.get_model_matrix` / `_prepare_model_specs`
   at run time and comparing the recorded request with the model's `requestVia`.
+  The model-spec entry points are ALSO exercised on a spec that already has structure — the spec attached to the matrix
+  of one variant: `mm.model_spec.get_model_matrix(data)`, `model_matrix(mm.model_spec, data)`, `model_matrix(mm, data)`,
+  `Materializer(data).get_model_matrix(mm.model_spec)`, and `mm.model_spec.get_model_matrix(data', materializer=, output=)`
+  under another materializer/input/output combination. Same formula, data and options: they join the same pairwise
+  comparison, and their recorded requests are compared with `requestVia` on the corresponding ModelSpec call record.
+* stream `reuse`: ONE materializer instance answers 2-4 `get_model_matrix` calls in a row (other formulas, output types,
+  ensure_full_rank, null policies, clustering; the formula text, the spec of the previous call's matrix, or a spec
+  trained on the first rows only); every call must give the matrix a fresh instance gives for the same call (oracle:
+  equality of the implementation's own outputs; no model).
 * stream `entry`: random call records (formula / structured formula / ModelSpec / ModelSpecs with assorted
   materializer settings, overrides incl. invalid ones, context mapping or none, a drop_rows set or none, data the
   registry knows or not) through every applicable entry point against `requestVia`.
@@ -53,6 +62,10 @@ TRUSTED = [
     "materializer params are opaque identities in the plumbing model",
     "the whole-matrix agreement of the three materializer/input combinations is established by the `outputs` stream "
     "(pairwise equality of the implementation's own outputs) and by `kind_tables_agree`; narwhals/pyarrow conversions are not proved",
+    "reuse of a spec that already has structure (`ScopedTerm.rehydrate`, `_enforce_structure`, recorded encoder state) and reuse "
+    "of one materializer instance for several calls (`factor_cache`/`encoded_cache`) are not modelled: the `outputs` and `reuse` "
+    "streams compare the real code's matrices with one another (spec-based vs formula-based entry points; reused vs fresh "
+    "instance); only the plumbing of the spec-based calls is tied to `requestVia`",
 ]
 ASSUMPTIONS = [
     "sparse_refines_dense: every evaluated factor has one value per row (`srcOK`: numpy/scipy enforce equal shapes) and the "
@@ -66,15 +79,24 @@ RULE = (
     "category with declared order and unused categories), 1-2 numeric columns (float64/int64, dyadic values), a bool column, "
     "nulls in 30% of the cases; formulas of 1-4 terms over names, C(x[, contr.*]), I(), a context function, interactions up "
     "to degree 3, literal scalings, intercept on/off; x ensure_full_rank x na_action x cluster_by; 9 output/materializer "
-    "variants through the top-level function plus the 4 other entry points at one random variant. entry: random call records "
+    "variants through the top-level function plus the 4 other entry points at one random variant, plus the model-spec entry "
+    "points on the spec attached to that variant's matrix (spec method, top-level function on the spec and on the matrix, "
+    "materializer method; and the spec method with a random other materializer/input/output as overrides). reuse: frames of "
+    "2-6 rows (20 thorough, nulls in 40%), one pandas/narwhals/narwhals-on-arrow materializer instance, 2-4 calls with random "
+    "formula (the first one again in half of the calls), output, ensure_full_rank, na_action, cluster_by, given as formula "
+    "text / spec of the previous matrix / spec trained on the first half of the rows; each call against a fresh instance. "
+    "entry: random call records "
     "(see module docstring). sparseops: random sparse/dense columns of 0-7 rows, 1-3 factors per term, 1-3 terms. "
-    "non-trivial = outputs case with an interaction or a categorical column, entry case with a structured spec or overrides, "
+    "non-trivial = outputs case with an interaction or a categorical column, reuse case with two different calls, entry case "
+    "with a structured spec or overrides, "
     "sparseops case with at least two factors; distinct by canonical JSON"
 )
 
 MATS = ["pandas", "narwhals", "arrow"]
 OUTPUTS = ["pandas", "numpy", "sparse"]
 ENTRIES = ["sugar", "formula", "spec", "spec_ov", "materializer"]
+# entry points on a spec that already has structure (attached to an earlier matrix); the last one changes materializer/output
+RESPEC = ["respec_method", "respec_sugar", "respec_matrix", "respec_materializer", "respec_cross"]
 INEXACT = ("contr.poly", "contr.diff", "contr.helmert", "contr.sum", "contr.SAS")
 
 
@@ -565,6 +587,9 @@ def gen_outputs_case(rng, tier):
         cluster=rng.random() < 0.25,
         extra=[rng.choice(MATS), rng.choice(OUTPUTS)],
         ctx=True,
+        # the model-spec entry points on a spec that ALREADY has structure (the one attached to the matrix of variant
+        # `sugar|extra`), and once more under another materializer/input/output combination
+        respec=[rng.choice(MATS), rng.choice(OUTPUTS)],
     )
 
 
@@ -598,7 +623,9 @@ def impl_outputs(c):
     variants = {}
     dummy = dict(data=None, context=None, drop=None, formula_id=lambda F: 0, params_id=lambda p: None if not p else 1)
 
-    def run(entry, mat, output):
+    built = {}
+
+    def run(entry, mat, output, src=None):
         data = table if mat == "arrow" else df
         kw = dict(opts, output=output)
         if mat == "narwhals":
@@ -611,7 +638,19 @@ def impl_outputs(c):
             try:
                 with warnings.catch_warnings():
                     warnings.simplefilter("ignore")
-                    if entry == "sugar":
+                    if entry == "respec_method":
+                        mm = src.model_spec.get_model_matrix(data, context=ctx)
+                    elif entry == "respec_sugar":
+                        mm = model_matrix(src.model_spec, data, context=ctx)
+                    elif entry == "respec_matrix":
+                        mm = model_matrix(src, data, context=ctx)
+                    elif entry == "respec_materializer":
+                        cls = FormulaMaterializer.for_materializer(src.model_spec.materializer)
+                        mm = cls(data, context=ctx).get_model_matrix(src.model_spec)
+                    elif entry == "respec_cross":
+                        # the spec's options stay; only the materializer/input and the output type change
+                        mm = src.model_spec.get_model_matrix(data, context=ctx, output=output, materializer="pandas" if mat == "pandas" else "narwhals")
+                    elif entry == "sugar":
                         mm = model_matrix(c["formula"], data, context=ctx, **kw)
                     elif entry == "formula":
                         mm = Formula(c["formula"]).get_model_matrix(data, context=ctx, **kw)
@@ -627,6 +666,7 @@ def impl_outputs(c):
             obs = _matrix_obs(mm, output)
             obs["requests"] = rec.canonical()
             obs["dataMat"] = None
+            built[(entry, mat, output)] = mm
             return obs
 
     for mat in MATS:
@@ -635,7 +675,33 @@ def impl_outputs(c):
     mat, output = c["extra"]
     for entry in ENTRIES[1:]:
         variants[f"{entry}|{mat}|{output}"] = run(entry, mat, output)
+    src = built.get(("sugar", mat, output))
+    if c.get("respec") and src is not None:
+        # same formula, data and options, handed over as the spec the first materialisation produced
+        for entry in RESPEC[:-1]:
+            variants[f"{entry}|{mat}|{output}"] = run(entry, mat, output, src)
+        mat2, output2 = c["respec"]
+        variants[f"respec_cross|{mat2}|{output2}"] = run("respec_cross", mat2, output2, src)
     return {"variants": variants, "dataMat": {"pandas": _data_mat(df), "arrow": _data_mat(table)}}
+
+
+def _respec_plan(c, o):
+    """[(variant key, model entry point, index into the follow-up calls)] + the follow-up call records themselves:
+    the spec attached to variant `sugar|extra` (formula 0 with the options and materializer it was built with)
+    handed to the model-spec entry points, without overrides and with a materializer/output override"""
+    if not c.get("respec"):
+        return [], []
+    mat, output = c["extra"]
+    mat2, output2 = c["respec"]
+    name = lambda m: o["dataMat"]["arrow"] if m == "arrow" else m
+    ms = dict(formula=0, materializer=name(mat), params=None, efr=c["efr"], na=c["na"], output=output,
+              cluster="numerical_factors" if c["cluster"] else "none")
+    call = lambda m, ov: dict(spec=dict(t="mspec", ms=ms), data=0, dataMat=o["dataMat"]["arrow" if m == "arrow" else "pandas"],
+                              context=1, dropRows=None, overrides=[dict(k=k, v=v) for k, v in ov])
+    plan = [(f"respec_method|{mat}|{output}", "spec", 0), (f"respec_sugar|{mat}|{output}", "sugar", 0),
+            (f"respec_matrix|{mat}|{output}", "sugar", 0), (f"respec_materializer|{mat}|{output}", "materializer", 0),
+            (f"respec_cross|{mat2}|{output2}", "spec_ov", 1)]
+    return plan, [call(mat, []), call(mat2, [["output", output2], ["materializer", "pandas" if mat2 == "pandas" else "narwhals"]])]
 
 
 def outputs_request(c, o):
@@ -646,7 +712,8 @@ def outputs_request(c, o):
     if mat != "arrow":
         ov.append(["materializer", mat])
     return dict(op="entry", call=dict(spec=dict(t="formula", f=0), data=0, dataMat=o["dataMat"]["arrow" if mat == "arrow" else "pandas"],
-                                      context=1, dropRows=None, overrides=[dict(k=k, v=v) for k, v in ov]))
+                                      context=1, dropRows=None, overrides=[dict(k=k, v=v) for k, v in ov]),
+                more=_respec_plan(c, o)[1])
 
 
 def _values_equal(a, b, inexact):
@@ -698,6 +765,19 @@ def oracle_outputs(c, o):
     return None
 
 
+def _agree_requests(label, v, want):
+    if want is None or "error" in want:
+        return f"{label}: model says {want}, implementation produced a matrix"
+    a, b = _norm_requests(v["requests"]), _norm_requests(want["requests"])
+    if a != b:
+        for x, y in zip(a, b):
+            if x != y:
+                diff = {k: (x.get(k), y.get(k)) for k in set(x) | set(y) if x.get(k) != y.get(k)}
+                return f"{label}: recorded request differs from the model's (impl, model): {diff}"
+        return f"{label}: {len(a)} request(s) recorded, model has {len(b)}"
+    return None
+
+
 def agree_outputs(c, o, m):
     if "skip" in o:
         return None
@@ -706,19 +786,110 @@ def agree_outputs(c, o, m):
         v = o["variants"].get(f"{entry}|{mat}|{output}")
         if v is None or "error" in v:
             continue  # a failing materialisation is the oracle's business
-        want = m.get(entry)
-        if want is None or "error" in want:
-            return f"entry point {entry}: model says {want}, implementation produced a matrix"
-        got = _norm_requests(v["requests"])
-        for r in got:
-            r["data"] = 0 if r["data"] == 0 else r["data"]
-        if got != _norm_requests(want["requests"]):
-            a, b = got, _norm_requests(want["requests"])
-            for x, y in zip(a, b):
-                if x != y:
-                    diff = {k: (x.get(k), y.get(k)) for k in set(x) | set(y) if x.get(k) != y.get(k)}
-                    return f"entry point {entry} ({mat}, {output}): recorded request differs from the model's (impl, model): {diff}"
-            return f"entry point {entry}: {len(a)} request(s) recorded, model has {len(b)}"
+        why = _agree_requests(f"entry point {entry} ({mat}, {output})", v, m.get(entry))
+        if why:
+            return why
+    more = m.get("more") or []
+    for key, entry, i in _respec_plan(c, o)[0]:
+        v = o["variants"].get(key)
+        if v is None or "error" in v:
+            continue
+        why = _agree_requests(f"entry point {key} (spec with structure)", v, more[i].get(entry) if i < len(more) else None)
+        if why:
+            return why
+    return None
+
+
+# ----------------------------------------------------------------------------- stream `reuse`
+# ONE materializer instance serves several `get_model_matrix` calls in a row. The property's "materializer method" entry
+# point is `Materializer(data).get_model_matrix(spec, **options)`: for the same spec, data and options it has to give the
+# same matrix whatever the instance was asked before, i.e. the same as a fresh instance.
+
+VIA = ["formula", "formula", "formula", "spec_prev", "spec_head"]
+
+
+def gen_reuse_case(rng, tier):
+    nrows = rng.randint(2, 6 if tier != "thorough" else 20)
+    nulls = rng.random() < 0.4
+    cols = gen_frame(rng, nrows, nulls)
+    calls = []
+    first = gen_formula(rng, cols)
+    for i in range(rng.randint(2, 4)):
+        calls.append(dict(
+            formula=first if i == 0 or rng.random() < 0.5 else gen_formula(rng, cols),
+            output=rng.choice(OUTPUTS),
+            efr=rng.random() < 0.6,
+            na=rng.choice(["drop", "drop", "ignore", "raise"]) if nulls else "drop",
+            cluster=rng.random() < 0.2,
+            # formula: the formula text; spec_prev: the spec a FRESH materializer attached to the previous call's matrix
+            # (its options stay, the output type is overridden); spec_head: the spec of this call's formula
+            # materialised on the first rows only (other encoder state), then used on the whole data
+            via=rng.choice(VIA) if i else rng.choice(["formula", "formula", "spec_head"]),
+        ))
+    return dict(kind="reuse", cols=cols, mat=rng.choice(MATS), calls=calls)
+
+
+def impl_reuse(c):
+    import pyarrow
+    from formulaic.materializers import FormulaMaterializer
+
+    df = build_frame(c["cols"])
+    if c["mat"] == "arrow":
+        try:
+            data = pyarrow.Table.from_pandas(df, preserve_index=False)
+        except Exception as e:
+            return {"skip": "pyarrow table could not be built: " + type(e).__name__}
+        head = data.slice(0, max(1, len(df) // 2))
+    else:
+        data = df
+        head = df.iloc[: max(1, len(df) // 2)]
+    cls = FormulaMaterializer.for_materializer("pandas" if c["mat"] == "pandas" else "narwhals")
+
+    def call(inst, spec, kw, output):
+        try:
+            with warnings.catch_warnings():
+                warnings.simplefilter("ignore")
+                mm = inst.get_model_matrix(spec, **kw)
+        except Exception as e:
+            return {"error": type(e).__name__, "msg": str(e)[:160]}, None
+        return _matrix_obs(mm, output), mm
+
+    shared = cls(data, context=dict(CONTEXT))
+    out, prev, prev_formula = [], None, None
+    for k in c["calls"]:
+        kw = dict(output=k["output"], ensure_full_rank=k["efr"], na_action=k["na"], cluster_by="numerical_factors" if k["cluster"] else "none")
+        via = k["via"]
+        spec = formula = k["formula"]
+        if via == "spec_prev":
+            if prev is None:
+                via = "formula"  # the previous call produced no matrix: fall back to the formula text
+            else:
+                spec, kw, formula = prev.model_spec, dict(output=k["output"]), prev_formula
+        elif via == "spec_head":
+            _, hm = call(cls(head, context=dict(CONTEXT)), k["formula"], kw, k["output"])
+            if hm is None:
+                via = "formula"
+            else:
+                spec, kw = hm.model_spec, {}
+        fresh, fm = call(cls(data, context=dict(CONTEXT)), spec, kw, k["output"])
+        reused, _ = call(shared, spec, kw, k["output"])
+        out.append(dict(via=via, formula=formula, fresh=fresh, reused=reused))
+        prev, prev_formula = fm, formula
+    return {"calls": out}
+
+
+def oracle_reuse(c, o):
+    if "skip" in o:
+        return None
+    for i, (k, r) in enumerate(zip(c["calls"], o["calls"])):
+        what = f"call {i + 1} of {len(c['calls'])} on one {c['mat']} materializer ({r['via']}, {r['formula']!r}, output={k['output']})"
+        why = _compare_variants(r, r["fresh"], r["reused"], "a fresh materializer", "the reused materializer")
+        if why:
+            return f"{what}: {why}"
+        for who in ("fresh", "reused"):
+            v = r[who]
+            if "shown" in v and v["shown"] != v["names"]:
+                return f"{what}: the {who} frame shows columns {v['shown']} but the attached spec names {v['names']}"
     return None
 
 
@@ -970,8 +1141,11 @@ def cases(rng, tier):
     n_out = {"quick": 110, "thorough": 1200, "search": 60}[tier]
     n_entry = {"quick": 260, "thorough": 3000, "search": 80}[tier]
     n_sparse = {"quick": 500, "thorough": 6000, "search": 100}[tier]
+    n_reuse = {"quick": 70, "thorough": 800, "search": 60}[tier]
     for _ in range(n_out):
         yield gen_outputs_case(rng, tier)
+    for _ in range(n_reuse):
+        yield gen_reuse_case(rng, tier)
     for _ in range(n_entry):
         yield gen_entry_case(rng)
     for _ in range(n_sparse):
@@ -984,6 +1158,8 @@ def describe(c):
         return f"outputs,na={c['na']},extra={'/'.join(c['extra'])}"
     if k == "entry":
         return f"entry,{c['spec']['t']},ov={len(c['overrides'])},{c['data']}"
+    if k == "reuse":
+        return f"reuse,{c['mat']},calls={len(c['calls'])}"
     return f"sparse,{c['op']}"
 
 
@@ -993,6 +1169,9 @@ def nontrivial(c):
         return ":" in c["formula"] or any(n in c["cols"] for n in ("A", "B"))
     if k == "entry":
         return c["spec"]["t"] in ("sformula", "mspecs") or bool(c["overrides"])
+    if k == "reuse":
+        key = lambda q: (q["formula"], q["output"], q["efr"], q["na"], q["via"])
+        return len({key(q) for q in c["calls"]}) >= 2
     return c["op"] == "pipeline" and any(len(t["factors"]) >= 2 for t in c["terms"]) or c["op"] in ("mul", "encode")
 
 
@@ -1002,6 +1181,8 @@ def impl(c):
         return impl_outputs(c)
     if k == "entry":
         return impl_entry(c)
+    if k == "reuse":
+        return impl_reuse(c)
     return impl_sparse(c)
 
 
@@ -1009,6 +1190,8 @@ def request(c, o):
     if "harness_exception" in o or "skip" in o:
         return dict(op="noop")
     k = c["kind"]
+    if k == "reuse":
+        return dict(op="noop")  # no model: the stream compares the implementation with itself (fresh vs reused instance)
     if k == "outputs":
         return outputs_request(c, o)
     if k == "entry":
@@ -1024,6 +1207,8 @@ def agree(c, o, m):
     if "error" in m and len(m) == 1:
         return "engine: " + str(m["error"])
     k = c["kind"]
+    if k == "reuse":
+        return None
     if k == "outputs":
         return agree_outputs(c, o, m)
     if k == "entry":
@@ -1039,6 +1224,8 @@ def oracle(c, o):
         return oracle_outputs(c, o)
     if k == "entry":
         return oracle_entry(c, o)
+    if k == "reuse":
+        return oracle_reuse(c, o)
     return oracle_sparse(c, o)
 
 
@@ -1056,7 +1243,8 @@ LEVEL_TEXT = (
     "request to FormulaMaterializer.get_model_matrix (same class, data, context layering, prepared spec options), with the "
     "exact `drop_rows` forwarding stated separately. The kind tables of the materializers (generated) agree for every dtype "
     "(decided on every run). The models are tied to the code by differential correspondence on every run; the agreement of "
-    "whole matrices across outputs, entry points and materializer/input combinations is checked on the real code."
+    "whole matrices across outputs, entry points (formula-based, and spec-based on a spec that already has structure), "
+    "materializer/input combinations and fresh vs reused materializer instances is checked on the real code."
 )
 LEVEL_NOTE = (
     "Trusted: Lean kernel + propext/Classical.choice/Quot.sound; hand models of sparse.py / the fast column path / the "
